@@ -257,8 +257,9 @@ def release_once(ctx, db, rid):
             bad = ('no path unlocks', trs[0] if trs else [])
         ctx.ob(rid, f, f['key'], bad is None, 'release unlocks what unique_ptr::release() returned, once' + ('' if not bad else ' -- ' + bad[0]), desc=bad[0] if bad else None)
     for f in _one(db, 'cocls::mutex::ownership_deleter::operator()'):
-        n = sum(1 for e in f.events() if e.k == 'call' and norm(e.get('callee')) == 'cocls::mutex::unlock')
-        ctx.ob(rid, f, f['key'], n == 1 and not has_back_edge(f), 'the deleter unlocks exactly once', desc='ownership_deleter does not unlock exactly once')
+        trs_ = [t for t in htracer(db).traces(f) if live(t)]       # directly, or through a helper of the mutex (unlock_and_resume())
+        ok_ = bool(trs_) and all(sum(1 for c in calls(t) if norm(c.get('callee')) == 'cocls::mutex::unlock') == 1 for t in trs_)
+        ctx.ob(rid, f, f['key'], ok_ and not has_back_edge(f), 'the deleter unlocks exactly once', desc='ownership_deleter does not unlock exactly once')
 
 
 OWN_PTR = 'cocls::mutex::ownership::_ptr'
